@@ -7,7 +7,7 @@
 From Coq Require Import List NArith ZArith Bool.
 From Coq Require Import Strings.Byte.
 From UF Require Import Base.Lit Base.Bytes Model.Netip Model.NetRule Model.Rule Model.Request Model.Match
-  Model.Engines Model.Session Proofs.C01Proofs Proofs.SessionProofs.
+  Model.Engines Model.Session Proofs.C01Proofs Proofs.SessionProofs Proofs.DnsDegraded.
 Import ListNotations.
 
 (* For every history h1 of queries, a fault at its end, and every continuation h2 (queries, further closes):
@@ -78,3 +78,47 @@ Theorem C19_served_before_served_after : forall hash psl backing ne de rules q1 
   exists f', In f' (match_all hash psl (vnet (cached_view s2)) (build_net hash rules) q2) /\ nr_text f' = nr_text f.
 Proof. exact served_before_served_after. Qed.
 Print Assumptions C19_served_before_served_after.
+
+(* ================= the DNS engine ================= *)
+(* whatever retrieval hands out: every reported hosts-file rule names the hostname and is what retrieval handed out for an
+   index filed under it (it never "lies"); reported network rules are covered by C19_never_lies / C19_monotone, the DNS
+   engine's network rules being [match_all] of its own network engine *)
+Theorem C19_dns_hosts_truthful : forall hash psl rules retr retr_host hostname q h,
+  let res := fst (dns_match hash psl retr retr_host (build_dns hash rules) hostname q) in
+  In h (dr_v4 res ++ dr_v6 res) ->
+  host_match h hostname = true /\
+  exists idx, In idx (bucket (de_hosts (build_dns hash rules)) (hash hostname)) /\ retr_host idx = Some h.
+Proof. exact dns_hosts_truthful. Qed.
+Print Assumptions C19_dns_hosts_truthful.
+(* a hosts-file rule that retrieval still hands out and that names the hostname is still reported when no network rule
+   decides the answer, whatever else has become unreadable (other rules of the same bucket included) *)
+Theorem C19_dns_hosts_still_served : forall hash psl rules retr retr_host hostname q h idx,
+  In (RHost h, idx) rules -> retr_host idx = Some h -> host_match h hostname = true -> hostname <> [] ->
+  let r := dns_match hash psl retr retr_host (build_dns hash rules) hostname q in
+  dr_network_rule (fst r) = None ->
+  In h (if is4 (hr_ip h) then dr_v4 (fst r) else dr_v6 (fst r)) /\ snd r = true.
+Proof. exact dns_hosts_still_served. Qed.
+Print Assumptions C19_dns_hosts_still_served.
+(* every hosts-file rule a DNS query reports is cached afterwards, under an index of the hostname's bucket *)
+Theorem C19_dns_reported_is_materialised : forall hash psl backing ne de V,
+  (forall idx r, V idx = Some r -> backing idx = Some r) -> forall hostname cn ip tags t s s' res,
+  St backing ne de V s -> dns_match_st hash psl backing de hostname cn ip tags t s = (s', res) ->
+  forall h, In h (dr_v4 (fst res) ++ dr_v6 (fst res)) ->
+  exists idx, In idx (bucket (de_hosts de) (hash hostname)) /\ cached s' idx (RHost h).
+Proof. exact hosts_materialised. Qed.
+Print Assumptions C19_dns_reported_is_materialised.
+(* the chain for hosts-file rules: reported by a DNS query on readable lists => after any further fault-free queries and
+   the fault, every DNS query for a name of the rule that no network rule decides still reports it *)
+Theorem C19_host_served_before_served_after : forall hash psl backing ne rules,
+  (forall r i, In (r, i) rules -> backing i = Some r) ->
+  forall n1 cn ip tags t s s1 res h ops n2 q2,
+  St backing ne (build_dns hash rules) backing s ->
+  dns_match_st hash psl backing (build_dns hash rules) n1 cn ip tags t s = (s1, res) ->
+  In h (dr_v4 (fst res) ++ dr_v6 (fst res)) ->
+  Forall (fun o => o <> OpClose) ops ->
+  let s2 := fst (run hash psl backing ne (build_dns hash rules) ops s1) in
+  let r2 := dns_match hash psl (vnet (cached_view s2)) (vhost (cached_view s2)) (build_dns hash rules) n2 q2 in
+  host_match h n2 = true -> n2 <> [] -> dr_network_rule (fst r2) = None ->
+  In h (if is4 (hr_ip h) then dr_v4 (fst r2) else dr_v6 (fst r2)) /\ snd r2 = true.
+Proof. exact host_served_before_served_after. Qed.
+Print Assumptions C19_host_served_before_served_after.
